@@ -59,14 +59,21 @@ pub assume_specification<'a, T: Copy> [Option::<&'a T>::copied] (o: Option<&'a T
 //@struct POS SourceSpan derive=Clone,Copy,PartialEq,Eq
 //@end
 
-//@trait INP Input methods=position_after
+//@trait INP Input methods=len,position_after
 //@  raw
 //@  |     spec fn v_after(&self, p: Position) -> Position;
+//@  |     spec fn v_len(&self) -> usize;
+//@  fn len ret=r
+//@  |         ensures r == self.v_len(),
 //@  fn position_after ret=r
 //@  |         ensures r == self.v_after(position),
 //@end
 
 //@trait PAR State methods=default_layout
+//@  raw
+//@  |     spec fn v_default_layout() -> Option<Self>;
+//@  fn default_layout ret=r
+//@  |         ensures r == Self::v_default_layout(),
 //@end
 
 //@struct LEX Token
@@ -118,21 +125,40 @@ pub assume_specification<'a, T: Copy> [Option::<&'a T>::copied] (o: Option<&'a T
 
 //@struct LRB SliceBuilder
 //@end
+// SliceBuilder's trait impls (bodies verified in unit lr_builder against the same shared contract; here only their existence
+// matters: the layout parser is an LRParser over a SliceBuilder)
+//@allow external_body SliceBuilder's Builder/LRBuilder methods: bodies verified in unit lr_builder, not here
+//@impl LRB /^impl < 'i , I > Builder for SliceBuilder/
+//@  raw
+//@  |     open spec fn v_tracks(&self) -> bool { false }
+//@  |     open spec fn v_depth(&self) -> nat { 0 }
+//@  type Output
+//@  fn get_result xbody
+//@end
+//@impl LRB /^impl < 'i , I , C , S , P , TK > LRBuilder < 'i , I , C , S , P , TK > for SliceBuilder/
+//@  raw
+//@  |     uninterp spec fn reduce_pre(&self, context: &C, prod_len: usize) -> bool;
+//@  fn shift_action xbody
+//@  fn reduce_action xbody
+//@end
 
 // ---- the table interface ------------------------------------------------------------------------------------------------------
 //@enum LRP Action derive=Copy,Clone
 //@end
 
-//@trait LRP ParserDefinition methods=actions,goto
+//@trait LRP ParserDefinition methods=actions,goto,expected_token_kinds
 //@  raw
 //@  |     spec fn v_actions(&self, state: S, token: TK) -> Seq<Action<S, P>>;
 //@  |     spec fn v_goto(&self, state: S, nonterm: NTK) -> S;
+//@  |     spec fn v_expected(&self, state: S) -> Seq<(TK, bool)>;
 //@  |     /// a depth function for the automaton (ghost; see table_ok)
 //@  |     spec fn v_depth(&self, state: S) -> nat;
 //@  fn actions ret=r
 //@  |         ensures r@ == self.v_actions(state, token),
 //@  fn goto ret=r
 //@  |         ensures r == self.v_goto(state, nonterm),
+//@  fn expected_token_kinds ret=r
+//@  |         ensures r@ == self.v_expected(state),
 //@end
 
 /// "LR action lookup takes the first action of the cell" (C15); an empty cell is an error
@@ -193,19 +219,95 @@ pub open spec fn empty_span_ok(last: SourceSpan, pos: Position, r: SourceSpan) -
 //@  |             final(context).v_layout_ahead() == old(context).v_layout_ahead(),
 //@end
 
+//@trait PAR Parser methods=parse_with_context
+//@  type Output
+//@  fn parse_with_context
+//@  |         ensures final(context).v_position().pos >= old(context).v_position().pos,
+//@end
+
 //@struct LRP LRParser attr=verifier::reject_recursive_types(I) attr=verifier::reject_recursive_types(C) attr=verifier::reject_recursive_types(S) attr=verifier::reject_recursive_types(TK) attr=verifier::reject_recursive_types(L)
 //@end
 //@type LRP LayoutParser
 
-// next_token is NOT verified here (collect / max_by_key / retain / Box<dyn Iterator>; bounded Kani harnesses next_token_*).
-// ASSUMED of it: it leaves the context's state alone; without a layout parser it leaves the context's span alone
-// (with one, the nested parse_with_context shifts layout tokens and moves the span).
-//@allow external_body LRParser::next_token: body not verified here (Kani harnesses next_token_* are its bounded stand-in); ASSUMED: context state unchanged, and span unchanged when there is no layout parser
+// <LRParser as Parser>::parse_with_context as a CALLEE (the nested parse of the layout parser inside next_token): external here,
+// assumed of what it does to the context: only that the position never moves backwards.  (Its loop is verified below as driver_block.)
+//@allow external_body <LRParser as Parser>::parse_with_context as the callee of next_token's layout parse: body not verified at this call (the lifted range driver_block is its loop); ASSUMED of its effect on the context: only that it never moves the position backwards
+//@impl LRP /^impl < 'i , C , S , P , I , TK , NTK , D , L , B > Parser < 'i , I , C , S , TK > for LRParser/
+//@  type Output
+//@  fn parse_with_context xbody
+//@end
+
+// ---- LRParser::next_token: the real body, except that the three statements that call the lexer and pick a candidate
+// (`let expected_tokens = ..; let mut next_tokens = self.lexer.next_tokens(..); let next_token = if D::longest_match() {..} else
+// {..};` -- `next_tokens` is a Box<dyn Iterator>, a type Verus does not take) are replaced by one external call (R-XSTMTS).
+// The candidate selection itself is proved in unit lookahead; what is proved HERE is everything after it: when the layout parser
+// is tried, that the content state is restored around it, when the loop goes round again, and when the synthetic STOP of
+// partial parsing may be produced.
+//@allow external_body xstmts_lex: the lexer call and candidate selection of next_token (R-XSTMTS); ASSUMED: it leaves the context's state and span alone (lexers move the position and set the layout only: Kani harness lexer_skip_*)
+//@allow external_body xexpr_expected_kinds: `self.definition.expected_token_kinds(context.state()).into_iter().map(|t| t.0).collect::<Vec<_>>()` (adapter chain) ASSUMED to return the kinds of the expected (kind, finish) pairs, in order
+//@allow external_body error_expected: verified in unit error, external here
+//@allow exec_allows_no_decreases_clause next_token's loop: termination is NOT proved (it goes round again only after a non-empty layout was consumed; that the position then advances is the layout parser's business)
+//@allow assume_specification <[T]>::contains: declared so that the call is accepted; only "true implies non-empty" is assumed of its result (std dependency)
+pub assume_specification<T: PartialEq> [<[T]>::contains] (s: &[T], x: &T) -> (r: bool)
+    ensures r ==> s@.len() > 0;
+
+/// slicing the input at an empty range at the current position is allowed (true of every position a lexer leaves the context at;
+/// ASSUMED of the lexer: for str it needs a char boundary inside the input)
+pub uninterp spec fn empty_slice_ok<I: Input + ?Sized>(input: &I, pos: usize) -> bool;
+//@allow axiom fn empty_slice_ok means index_req for the empty range at that offset (definition of the uninterpreted predicate)
+pub broadcast axiom fn axiom_empty_slice_ok<I: Input + ?Sized>(input: &I, pos: usize)
+    ensures #[trigger] empty_slice_ok(input, pos) ==> vstd::std_specs::core::IndexSpec::index_req(input, &Range { start: pos, end: pos });
+
+//@fn ERR error_expected ret=r xbody
+//@end
+
 //@impl LRP /^impl < 'i , C , S , P , I , TK , NTK , D , L , B > LRParser < 'i , C , S , P , TK , NTK , D , L , B , I >/ has=next_token
-//@  fn next_token ret=r xbody
+//@  fn next_token ret=r attr=verifier::exec_allows_no_decreases_clause
+//@  |         requires
+//@  |             forall|c: C| #[trigger] empty_slice_ok(input, c.v_position().pos),
+//@  |             layout_parser is Some ==> S::v_default_layout() is Some, // "Layout state not defined." is checked where the layout parser is built
 //@  |         ensures
-//@  |             final(context).v_state() == old(context).v_state(),
+//@  |             final(context).v_state() == old(context).v_state(), // [C02, C12] the content state is restored around a layout parse
 //@  |             layout_parser is None ==> final(context).v_span() == old(context).v_span(),
+//@  xstmts xstmts_lex "let expected_tokens = self.definition.expected_token_kinds(context.state());" "next_tokens.next()"
+//@  |             let next_token = xstmts_lex(self, context, input);
+//@  |             let ghost pos_lex = context.v_position(); // where the lexer looked for a token in this round (specification only)
+//@  xexpr xexpr_expected_kinds(self.definition, context.state()) = self.definition.expected_token_kinds(context.state()).into_iter().map(|t| t.0).collect::<Vec<_>>()
+//@  before 1 "loop {"
+//@  |         broadcast use axiom_empty_slice_ok;
+//@  |         let ghost st0 = context.v_state();
+//@  |         let ghost sp0 = context.v_span();
+//@  loop 1
+//@  |             invariant
+//@  |                 context.v_state() == st0, st0 == old(context).v_state(), sp0 == old(context).v_span(),
+//@  |                 layout_parser is None ==> context.v_span() == sp0,
+//@  |                 forall|c: C| #[trigger] empty_slice_ok(input, c.v_position().pos),
+//@  |                 layout_parser is Some ==> S::v_default_layout() is Some,
+//@  after 1 "loop {"
+//@  |             broadcast use axiom_empty_slice_ok;
+//@  |             // has the layout parser been tried at the current position in this round?
+//@  |             let ghost mut laid = false;
+//@  after 1 "let p = layout_parser.parse_with_context(context, input);"
+//@  |                     proof { laid = true; }
+//@  before 1 "let stop_kind = <TK as Default>::default();"
+//@  |                 // [C02] "synthetic STOP only when no expected token matches": the error / STOP decision is taken only after the
+//@  |                 // layout parser, if there is one, has been tried at this position -- so enabling partial parsing cannot end the
+//@  |                 // parse in front of layout that the full parser would have skipped
+//@  |                 assert(layout_parser is Some ==> laid); // [C02, C12]
+//@  |                 assert(context.v_state() == st0); // [C02, C12] the expected kinds are those of the content state
+//@  |                 // [C12] "the start of the first token that cannot continue": the position reported is not in front of where the lexer
+//@  |                 // last looked for a token (layout consumed in earlier rounds stays consumed)
+//@  |                 assert(context.v_position().pos >= pos_lex.pos); // [C12]
+//@  |                 assert(empty_slice_ok(input, context.v_position().pos));
+//@end
+//@xexprfn xstmts_lex nobody
+//@  | fn xstmts_lex<'i, C, S, P, I, TK, NTK, D, L, B>(parser: &LRParser<'i, C, S, P, TK, NTK, D, L, B, I>, context: &mut C, input: &'i I) -> (r: Option<Token<'i, I, TK>>)
+//@  |     where C: Context<'i, I, S, TK>, S: State, I: Input + ?Sized, TK: Default, D: ParserDefinition<S, P, TK, NTK>, L: Lexer<'i, C, S, TK, Input = I>,
+//@  |     ensures final(context).v_state() == old(context).v_state(), final(context).v_span() == old(context).v_span(),
+//@end
+//@xexprfn xexpr_expected_kinds nobody
+//@  | fn xexpr_expected_kinds<S, P, TK, NTK, D: ParserDefinition<S, P, TK, NTK>>(definition: &D, state: S) -> (r: Vec<TK>)
+//@  |     ensures r@.len() == definition.v_expected(state).len(), forall|i: int| 0 <= i < r@.len() ==> r@[i] == definition.v_expected(state)[i].0,
 //@end
 
 //@lift DRV driver_block
@@ -220,6 +322,9 @@ pub open spec fn empty_span_ok(last: SourceSpan, pos: Position, r: SourceSpan) -
 //@  |             // the builder needs nothing but a deep enough result stack for a reduction (true of TreeBuilder, unit lr_builder;
 //@  |             // NOT of SliceBuilder, whose reduce_action slices the input at the reduced span)
 //@  |             forall|b: B, c: &C, n: usize| #[trigger] b.reduce_pre(c, n),
+//@  |             // what next_token needs (see there)
+//@  |             forall|c: C| #[trigger] empty_slice_ok(input, c.v_position().pos),
+//@  |             layout_parser is Some ==> S::v_default_layout() is Some,
 //@  xexpr xexpr_cant_continue(state, &next_token) = err!(format!("Can't continue in state {state:?} with lookahead {next_token:?}."))
 //@  before 1 "let mut state = parse_stack.state();"
 //@  |         let ghost d = self.definition;
@@ -232,6 +337,8 @@ pub open spec fn empty_span_ok(last: SourceSpan, pos: Position, r: SourceSpan) -
 //@  |             invariant
 //@  |                 table_ok::<S, P, TK, NTK, D>(self.definition),
 //@  |                 forall|b: B, c: &C, n: usize| #[trigger] b.reduce_pre(c, n),
+//@  |                 forall|c: C| #[trigger] empty_slice_ok(input, c.v_position().pos),
+//@  |                 layout_parser is Some ==> S::v_default_layout() is Some,
 //@  |                 stack_ok::<S, P, TK, NTK, D>(self.definition, parse_stack.stack@),
 //@  |                 state == parse_stack.stack@[parse_stack.stack@.len() - 1].state, // [C02]
 //@  |                 builder.v_tracks() ==> builder.v_depth() + 1 == depth0 + parse_stack.stack@.len(), // [C02] the two stacks stay mirrored
